@@ -4,7 +4,6 @@ PROPS = {}
 
 # Properties not (yet) claimed. Kept current by hand; gen_manifest.py copies it.
 NOT_APPLICABLE = {
-    'C14': 'check not built yet in this round (planned, see DESIGN.md section 5)',
     'C15': 'check not built yet in this round (planned, see DESIGN.md section 5)',
 }
 
@@ -340,5 +339,22 @@ PROPS['C19'] = dict(
     min_nontrivial=2000,
     require_counters={'threads/16': 200, 'threads/2': 200, 'overlap/encode-mesh+decode': 500, 'overlap/encode-mesh+encode-mesh': 500, 'overlap/decode+decode': 300, 'overlap/keyframes+encode-pc': 0,
                       'overlap/obj-encode+ply-encode': 300, 'overlapping_execution_pairs': 500000, 'tsan_report_blocks': 0, 'job_executions': 200000},
+    assumptions=[],
+)
+
+PROPS['C14'] = dict(
+    title='Mesh-building and clean-up utilities never change what the mesh describes',
+    technique='runtime monitoring: before/after canonical-form oracle with independently computed documented removals, dedup post-conditions, independent GPU-rule strip walker; ASan/UBSan',
+    level='exploration',
+    level_text=('Five workloads: TriangleSoupMeshBuilder (per-corner and per-face attributes, 1-5 attributes, bit patterns +-0.0 / NaN payloads / denormals compared bitwise), PointCloudBuilder with and without dedup, '
+                'DeduplicateAttributeValues / DeduplicatePointIds in three orders on hand-built geometries with explicit maps and planted identical values (idempotence, no identical values or points left), '
+                'MeshCleanup::Cleanup with all 8 subsets of the three options of this build (expectation computed from the input: degenerate = two corners on one position entry, exact duplicates must go, '
+                'position-only duplicates may go, unused points/values gone), and MeshStripifier in both output modes decoded by a 20-line strip walker back to exactly the non-degenerate input triangles with orientation.'),
+    level_note='Sampled. Value deduplication is implemented for 1..4 components only; attributes with more components are skipped in the "no identical values" post-condition (counted in the evidence).',
+    rule='case k runs workload k mod 5 on a generated input. Non-trivial = input has >= 1 face / point; distinct = hash of the input.',
+    runs=[dict(variant='asan', harness='c14_utils', cases=dict(quick=60000, thorough=1500000))],
+    min_nontrivial=20000,
+    require_counters={'soup_builder_meshes': 8000, 'pc_builder_clouds': 8000, 'dedup_geometries': 8000, 'cleanup_meshes/mask7': 800, 'cleanup_meshes/mask0': 800, 'cleanup_meshes/mask2': 800,
+                      'strip_sets/primitive-restart': 8000, 'strip_sets/degenerate-triangles': 8000},
     assumptions=[],
 )
